@@ -601,6 +601,9 @@ pub struct World {
 	/// nodes that revoked a holder commitment after handing it to the broadcaster (C05-2): the peer
 	/// may punish them, which the conservation oracle then reports as a consequence
 	pub revoked_after_broadcast: BTreeSet<usize>,
+	/// (node, chan): the node handed its commitment to the broadcaster and then crashed while
+	/// monitor writes of that channel were still `InProgress` (and were lost)
+	pub broadcast_on_lost_state: BTreeSet<(usize, usize)>,
 	/// batch-sweep checks already made: (node, number of outputs, first outpoint)
 	pub batch_sweep_checked: BTreeSet<(usize, usize, bitcoin::OutPoint)>,
 	/// C08: nodes currently cut off; nodes that were ever cut off or gone; last HTLC views
@@ -792,6 +795,7 @@ impl World {
 			corrupt_in_progress: false,
 			last_reorg_step: 0,
 			revoked_after_broadcast: BTreeSet::new(),
+			broadcast_on_lost_state: BTreeSet::new(),
 			batch_sweep_checked: BTreeSet::new(),
 			partitioned: BTreeSet::new(),
 			ever_unresponsive: BTreeSet::new(),
